@@ -171,3 +171,11 @@ MANIFEST = {
 
 # pkg-tsigw: theorems about the TSIG-bearing responses of the extended composed model (Model/ServerWT.v), append-only
 CHECK["theorems"] = list(CHECK["theorems"]) + ['c02_wellformed_tsig_partial', 'c02_tsig_record_partial']
+
+# pkg-sproof: the SIGNED TSIG-bearing responses are now under the theorems, append-only
+CHECK["theorems"] = list(CHECK["theorems"]) + ['c02_wellformed_tsig', 'c02_tsig_record']
+MANIFEST["level_note"] += (" `c02_wellformed_tsig` / `c02_tsig_record` (Proofs/SignFinishP.v, SignSerP.v, SignDecP.v, SignTopP.v; Spec/TsigSignS.v): "
+                           "also the responses signed in TsigMode::Response (BADTIME; verified request answered NOTIMP / REFUSED / SERVFAIL / FORMERR) "
+                           "are well formed and end with the RFC 8945 TSIG record (MAC of the algorithm's output size = the MAC sign_response returns "
+                           "for the octets before the record), for every verifier and every hmac returning an octet string of that size.")
+CHECK["theorems"] = list(CHECK["theorems"]) + ['c02_finish_signed_ok']
